@@ -430,6 +430,108 @@ impl C13 {
         }
     }
 
+    /// Degenerate-on-purpose rays: polygons on a half-metre lattice in axis poses, start vertex anywhere in the
+    /// outline, rays along the element's normal whose crossing point lies exactly level with a corner (the classic
+    /// scanline-through-a-vertex case of point-in-polygon tests) but at least 1 mm away from the outline.
+    fn polygon_lattice(&self, rng: &mut Rng, case: &Case, obs: &mut Obs) {
+        let h = |rng: &mut Rng, lo: i64, hi: i64| (lo + rng.below((hi - lo + 1) as u64) as i64) as f64 * 0.5;
+        let (mut pts, shape): (Vec<(f64, f64)>, &'static str) = match rng.usize(5) {
+            0 => {
+                // gable
+                let (a, e, r) = (h(rng, 4, 16), h(rng, 2, 8), h(rng, 1, 6));
+                (vec![(0.0, 0.0), (a, 0.0), (a, e), (a / 2.0, e + r), (0.0, e)], "gable")
+            }
+            1 => {
+                let (a, b, c, d) = (h(rng, 6, 16), h(rng, 6, 16), h(rng, 1, 4), h(rng, 1, 4));
+                (vec![(0.0, 0.0), (a, 0.0), (a, d), (c, d), (c, b), (0.0, b)], "L-shaped")
+            }
+            2 => {
+                let (a, b, t) = (h(rng, 8, 18), h(rng, 6, 16), h(rng, 1, 3));
+                (vec![(0.0, 0.0), (a, 0.0), (a, b), (a - t, b), (a - t, t), (t, t), (t, b), (0.0, b)], "U-shaped")
+            }
+            3 => {
+                // trapezoid / lean-to
+                let (a, b, c) = (h(rng, 4, 16), h(rng, 2, 8), h(rng, 1, 6));
+                (vec![(0.0, 0.0), (a, 0.0), (a, b + c), (0.0, b)], "trapezoid")
+            }
+            _ => {
+                // stepped outline
+                let (a, b) = (h(rng, 3, 8), h(rng, 2, 6));
+                (vec![(0.0, 0.0), (3.0 * a, 0.0), (3.0 * a, b), (2.0 * a, b), (2.0 * a, 2.0 * b), (a, 2.0 * b), (a, 3.0 * b), (0.0, 3.0 * b)], "stepped")
+            }
+        };
+        let (ox, oy) = (h(rng, -10, 10), h(rng, -10, 10));
+        for p in pts.iter_mut() {
+            *p = (p.0 + ox, p.1 + oy);
+        }
+        if rng.chance(0.5) {
+            pts.reverse();
+        }
+        let k = rng.usize(pts.len());
+        pts.rotate_left(k);
+        let poly: Vec<Point2> = pts.iter().map(|p| Point2::new(p.0 as f32, p.1 as f32)).collect();
+        let (tilt, azimuth) = *rng.pick(&[(0.0f32, 0.0f32), (0.0, 0.0), (90.0, 0.0), (90.0, 0.0), (90.0, 90.0), (90.0, 180.0), (90.0, -90.0), (180.0, 0.0), (0.0, 90.0)]);
+        let geom = WallGeom { tilt, azimuth, position: Some(p3(h(rng, -40, 40), h(rng, -40, 40), h(rng, 0, 40))), polygon: poly };
+        let frame = match crate::oracle::geom::Frame::of(&geom) {
+            Some(f) => f,
+            None => return,
+        };
+        let gpts = global_points(&geom).unwrap();
+        let mut m = Model::default();
+        m.shades.push(Shade { id: uuid(rng), name: "s".into(), geometry: geom.clone() });
+        let occ = guard(|| m.collect_occluders()).unwrap_or_default();
+        obs.count(&format!("lattice-shape:{}", shape));
+        obs.nontrivial(crate::rng::fnv64(format!("lattice{:?}", geom).as_bytes()));
+        let (minx, maxx) = pts.iter().fold((f64::MAX, f64::MIN), |a, p| (a.0.min(p.0), a.1.max(p.0)));
+        let (miny, maxy) = pts.iter().fold((f64::MAX, f64::MIN), |a, p| (a.0.min(p.1), a.1.max(p.1)));
+        let last = pts[pts.len() - 1];
+        for i in 0..32 {
+            // level with a corner (every second ray: with the last listed corner), x on a quarter-metre lattice
+            let corner = if i % 2 == 0 { last } else { pts[rng.usize(pts.len())] };
+            let (x, y) = if rng.chance(0.8) { (minx - 1.0 + 0.25 * rng.below(((maxx - minx + 2.0) * 4.0) as u64 + 1) as f64, corner.1) } else { (corner.0, miny - 1.0 + 0.25 * rng.below(((maxy - miny + 2.0) * 4.0) as u64 + 1) as f64) };
+            let dist = 0.5 * (1 + rng.below(20)) as f64;
+            let side = if rng.chance(0.5) { 1.0 } else { -1.0 };
+            let origin = frame.at(x, y, side * dist);
+            let d = crate::oracle::geom::scale(frame.ez, -side);
+            // axis poses: snap the direction to the exact axis vector it is meant to be
+            let dir = [d[0].round(), d[1].round(), d[2].round()];
+            let ray = Ray::new(p3(origin[0], origin[1], origin[2]), Vector3::new(dir[0] as f32, dir[1] as f32, dir[2] as f32));
+            let o64: V3 = [ray.origin.x as f64, ray.origin.y as f64, ray.origin.z as f64];
+            let d64: V3 = unit([ray.dir.x as f64, ray.dir.y as f64, ray.dir.z as f64]);
+            obs.eval();
+            let want = ray_polygon(o64, d64, &gpts);
+            if want == Hit::Ambiguous {
+                obs.ambiguous("crossing within 1 mm of the outline / origin on the plane / grazing");
+                continue;
+            }
+            obs.count("lattice:crossing-level-with-a-corner");
+            if corner == last && last.1 > miny && last.1 < maxy {
+                obs.count("lattice:level-with-the-last-listed-corner-which-is-not-extreme");
+            }
+            obs.count(if want == Hit::Yes { "lattice:hit" } else { "lattice:miss" });
+            let got_geom = match guard(|| geom.intersects(&ray).is_some()) {
+                Ok(g) => g,
+                Err(p) => {
+                    obs.panic_violation(&p, json!({"where": "WallGeom::intersects", "geometry": format!("{:?}", geom)}));
+                    return;
+                }
+            };
+            let got_occ = occ.first().map(|o| (&o).intersects(&ray).is_some());
+            for (name, got) in [("WallGeom::intersects", Some(got_geom)), ("Occluder::intersects", got_occ)] {
+                if let Some(g) = got {
+                    if g != (want == Hit::Yes) {
+                        obs.violation(
+                            &format!("ray-polygon:{}:crossing-level-with-a-corner:{}", name, if want == Hit::Yes { "missed-hit" } else { "false-hit" }),
+                            format!("{} says {} but in exact arithmetic the ray {} the {} polygon (tilt {}, azimuth {}); the crossing point is level with a corner of the outline and {:.3} m away from it", name, g, if want == Hit::Yes { "hits" } else { "misses" }, shape, geom.tilt, geom.azimuth, ((x - corner.0).powi(2) + (y - corner.1).powi(2)).sqrt()),
+                            json!({"geometry": format!("{:?}", geom), "ray": format!("{:?}", ray), "local_crossing": [x, y], "case": case.index}),
+                        );
+                        return;
+                    }
+                }
+            }
+        }
+    }
+
     fn reveals(&self, rng: &mut Rng, case: &Case, obs: &mut Obs) {
         // one wall of any pose, one set-back window
         let (w, h) = (rng.dec(2.0, 10.0, 2), rng.dec(2.0, 6.0, 2));
@@ -514,7 +616,7 @@ impl Property for C13 {
         "C13"
     }
     fn rule(&self) -> String {
-        "(1) obstacle sets of size 0..200 in 6 families (random boxes, duplicates, one common centre, a common-centre group larger than the leaf among other elements, collinear centres, flat boxes) x leaf sizes 1/2/4/30 x 64 rays (random, axis-parallel, aimed at centres, from inside, aimed to miss): BVH::build(..).intersects == any(element.intersects), build bounded by 10 n^2 + 1000 aabb() calls of an instrumented element and by the node-bound hook; the same over the real occluders of generated models; (2) simple polygons with 3..12 corners (convex, star-shaped, L, U; either winding) in random poses x 24 rays: WallGeom::intersects and Occluder::intersects == exact f64 winding-number test; (3) WallGeom::aabb contains all corners; (4) windows with setback in (0,1] on walls of any pose: the four reveal occluders mapped back through their own matrices equal the gap quads as point sets; non-trivial = distinct set / pose".into()
+        "(1) obstacle sets of size 0..200 in 6 families (random boxes, duplicates, one common centre, a common-centre group larger than the leaf among other elements, collinear centres, flat boxes) x leaf sizes 1/2/4/30 x 64 rays (random, axis-parallel, aimed at centres, from inside, aimed to miss): BVH::build(..).intersects == any(element.intersects), build bounded by 10 n^2 + 1000 aabb() calls of an instrumented element and by the node-bound hook; the same over the real occluders of generated models; (2) simple polygons with 3..12 corners (convex, star-shaped, L, U; either winding) in random poses x 24 rays: WallGeom::intersects and Occluder::intersects == exact f64 winding-number test; the same for lattice polygons (gable, L, U, trapezoid, stepped; half-metre coordinates, any start corner, either winding) in axis poses with rays along the normal whose crossing point is exactly level with a corner of the outline (half of them with the last listed corner) yet >= 1 mm from the outline; (3) WallGeom::aabb contains all corners; (4) windows with setback in (0,1] on walls of any pose: the four reveal occluders mapped back through their own matrices equal the gap quads as point sets; non-trivial = distinct set / pose".into()
     }
     fn assumptions(&self) -> Vec<String> {
         vec!["crossings within 1 mm of the outline, origins within 1 mm of the plane and grazing rays (|cos| < 1e-3) are ambiguous".into()]
@@ -524,6 +626,7 @@ impl Property for C13 {
             ("bvh-boxes".into(), tier.pick(2800, 200_000)),
             ("bvh-occluders".into(), tier.pick(150, 8000)),
             ("polygon-exact".into(), tier.pick(1500, 150_000)),
+            ("polygon-lattice".into(), tier.pick(600, 60_000)),
             ("reveals".into(), tier.pick(500, 40_000)),
         ]
     }
@@ -540,6 +643,9 @@ impl Property for C13 {
             ("rays_free".into(), 5000),
             ("exact:hit".into(), 3000),
             ("exact:miss".into(), 3000),
+            ("lattice:hit".into(), 2000),
+            ("lattice:miss".into(), 2000),
+            ("lattice:level-with-the-last-listed-corner-which-is-not-extreme".into(), 1000),
             ("reveals:vertical-wall".into(), 50),
             ("reveals:roof-or-floor".into(), 50),
             ("reveals:leaning-wall".into(), 50),
@@ -553,6 +659,7 @@ impl Property for C13 {
             "bvh-boxes" => self.bvh_boxes(&mut rng, case, obs),
             "bvh-occluders" => self.bvh_occluders(&mut rng, case, obs),
             "polygon-exact" => self.polygon_exact(&mut rng, case, obs),
+            "polygon-lattice" => self.polygon_lattice(&mut rng, case, obs),
             _ => self.reveals(&mut rng, case, obs),
         }
     }
